@@ -238,3 +238,11 @@ B("c01-sliding-sparse-int-reward", "C01", "C01.R7", (L + "sliding_tile_puzzle/re
 B("c01-snake-reward-bool", "C01", "C01.R7", (R + "snake/env.py", "Snake.step", "expr", "jnp.asarray(fruit_eaten, float)", "jnp.asarray(fruit_eaten)"))
 B("c01-snake-count-float", "C01", "C01.R7", (R + "snake/env.py", "Snake.reset", "kwarg", "step_count", "jnp.array(0, jnp.int32)", "jnp.array(0, float)"))
 B("c10-maze-divmod-rows", "C10", "C10.R4", (R + "maze/generator.py", "RandomGenerator.__call__", "expr", "jnp.divmod(start_and_target_indices, self.num_cols)", "jnp.divmod(start_and_target_indices, self.num_rows)"))
+
+# ---------------------------------------------------------------- C12.R2 view wiring
+B("c12-snake-planes-order", "C12", "C12.R2", (R + "snake/env.py", "Snake._state_to_observation", "expr", "[body, head, tail, fruit, norm_body_state]", "[body, tail, head, fruit, norm_body_state]"))
+B("c12-snake-fruit-at-head", "C12", "C12.R2", (R + "snake/env.py", "Snake._state_to_observation", "expr", "tuple(state.fruit_position)", "tuple(state.head_position)"))
+B("c12-binpack-norm-axis", "C12", "C12.R2", (P + "bin_pack/env.py", "BinPack._normalize_ems_and_items", "expr", "Space(x1=x_len, x2=x_len, y1=y_len, y2=y_len, z1=z_len, z2=z_len)", "Space(x1=x_len, x2=x_len, y1=y_len, y2=z_len, z1=z_len, z2=y_len)"))
+B("c12-binpack-mask-selection", "C12", "C12.R2", (P + "bin_pack/env.py", "BinPack._get_set_of_largest_ems", "expr", "ems_mask[obs_ems_indexes]", "ems_mask[:self.obs_num_ems]"))
+B("c12-binpack-ascending", "C12", "C12.R2", (P + "bin_pack/env.py", "BinPack._get_set_of_largest_ems", "expr", "jnp.argsort(-ems_volumes)", "jnp.argsort(ems_volumes)"))
+B("c12-tetris-old-piece", "C12", "C12.R2", (P + "tetris/env.py", "Tetris.step", "kwarg", "tetromino", "new_tetromino", "tetromino"))
